@@ -127,4 +127,28 @@ int good_r9_flag(R9Node* context)
         return 0;
     return context->kind;
 }
+
+// ---- R10: stores into fixed-size local arrays
+double bad_r10_guard_on_other_length(const unsigned short* s, unsigned long len, unsigned long numLen)
+{
+    if (numLen < 200u)
+    {
+        char buf[200];
+        for (unsigned long i = 0; i < len; ++i)      // len is not what the guard bounds
+            buf[i] = char(s[i]);
+        buf[len] = 0;
+        return buf[0];
+    }
+    return 0;
+}
+
+double good_r10_guarded(const unsigned short* s, unsigned long len)
+{
+    if (len >= 200u)
+        return 0;
+    char buf[200];
+    for (unsigned long i = 0; i <= len; ++i)
+        buf[i] = char(s[i]);
+    return buf[0];
+}
 }
